@@ -2002,4 +2002,140 @@ def loopfree(t):
 def itm(s, name):
     """callee path `s` is the Iterator method `name`, whether printed as the trait method
     (std::iter::Iterator::map) or resolved to an impl (<slice::Iter<T> as Iterator>::map)"""
-    return bool(s) and bool(re.search(r"Iterator(<[^>]*>)?>?::%s$" % name, s))
+    return bool(s) and bool(re.search(r"(Iterator(<[^>]*>)?>?|<impl std::iter::Iterator for [^{}]*>)::%s$" % name, s))
+
+
+# --------------------------------------------------------------------------
+# one-iteration summaries of a loop (transfer function over the Herbrand domain)
+# --------------------------------------------------------------------------
+
+
+class _EnvTerms(Terms):
+    """Terms whose locals are read from a forward environment while walking one path;
+    locals assigned inside the loop but not yet on this path are the values carried in
+    from the previous iteration: ('carried', local)."""
+
+    def __init__(self, body, env, loop_defs, outer):
+        Terms.__init__(self, body)
+        self.env = env
+        self.loop_defs = loop_defs
+        self.outer = outer
+
+    def local(self, l, bb, idx):
+        if l in self.env:
+            return self.env[l]
+        if l in self.loop_defs:
+            return ("carried", l)
+        return self.outer.local(l, bb, idx)
+
+
+class IterRow:
+    __slots__ = ("kind", "conds", "env", "stores", "ret", "blocks", "facts", "calls")
+
+    def new(self, l):
+        """value of local l at the end of the path"""
+        return self.env.get(l, ("carried", l))
+
+
+def iteration_table(body, head, max_paths=5000):
+    """All acyclic paths that start at loop head `head`: rows of kind
+       'back'   – the path returns to the head (one full iteration); row.env holds the new values
+       'return' – the path leaves the loop and reaches a return (row.ret)
+       'cycle'  – the path runs into another cycle (inner loop, or a later loop after the exit)
+       'diverge'– panics/diverges
+    Values are terms over ('carried', l) (value of local l when the iteration starts) and loop-invariant
+    terms.  Stores through pointers (`*p = v`) are listed in row.stores as (pointer term, value)."""
+    loops = [blocks for h, blocks in body.natural_loops() if h == head]
+    if not loops:
+        raise AnchorMissing("bb%d of %s is not a loop head" % (head, body.path))
+    blocks = set().union(*loops)
+    loop_defs = {l for l, ds in body.defs.items() if any(d[0] in blocks for d in ds)}
+    back = {(a, head) for a in body.pred[head] if a in blocks}
+    outer = Terms(body, edge_ok=lambda a, b: (a, b) not in back)
+    rows = []
+
+    def emit(kind, conds, env, stores, seen, calls, ret=None):
+        r = IterRow()
+        r.kind, r.conds, r.env, r.stores, r.blocks, r.ret, r.calls = kind, conds, env, stores, seen, ret, calls
+        r.facts = path_facts(Path(conds, seen, kind))
+        rows.append(r)
+        if len(rows) > max_paths:
+            raise TooManyPaths(body.path)
+
+    stack = [(head, {}, [], [], [], [])]
+    while stack:
+        bb, env, conds, stores, seen, calls = stack.pop()
+        env = dict(env)
+        stores = list(stores)
+        seen = seen + [bb]
+        et = _EnvTerms(body, env, loop_defs, outer)
+        blk = body.blocks[bb]
+        for pos, s in enumerate(blk["stmts"]):
+            if s["k"] != "assign":
+                continue
+            v = et.rvalue(s["rv"], bb, pos)
+            pl = s["place"]
+            if not pl["p"]:
+                env[pl["l"]] = v
+            elif pl["p"][0]["k"] == "deref":
+                stores.append((et.place(pl, bb, pos), v))
+            else:
+                names = tuple(e.get("name", str(e.get("i", e["k"]))) for e in pl["p"] if e["k"] != "deref")
+                env[pl["l"]] = ("update", et.local(pl["l"], bb, pos), names, v)
+        t = blk["term"]
+        k = t["k"]
+        nexts = []
+        if k == "return":
+            emit("return", conds, env, stores, seen, calls, ret=et.local(0, bb, len(blk["stmts"])))
+            continue
+        if k == "call":
+            v = et.call_term(t, bb)
+            calls = calls + [(bb, v)]
+            d = t.get("dest")
+            if d is not None and not d["p"]:
+                env[d["l"]] = v
+            if "target" in t and t["target"] is not None:
+                nexts.append((t["target"], conds))
+            else:
+                emit("diverge", conds, env, stores, seen, calls)
+                continue
+        elif k == "switch":
+            d, names = switch_discr_info(body, bb)
+            dt = et.operand(d, bb)
+            if dt[0] == "discr":
+                dt = ("discr", dt[1])
+            for v, tgt in [(v, tgt) for v, tgt in t["targets"]] + [("otherwise", t["otherwise"])]:
+                label = v
+                if names is not None and v != "otherwise":
+                    label = names.get(v, v)
+                elif names is not None and v == "otherwise":
+                    taken = {names.get(x, x) for x, _ in t["targets"]}
+                    label = ("otherwise", tuple(n for n in names.values() if n not in taken))
+                if body.blocks[tgt]["term"]["k"] == "unreachable":
+                    continue
+                nexts.append((tgt, conds + [(dt, label, bb)]))
+        elif k in ("goto", "drop", "assert"):
+            if "target" in t and t["target"] is not None:
+                nexts.append((t["target"], conds))
+            else:
+                emit("diverge", conds, env, stores, seen, calls)
+                continue
+        else:
+            emit("diverge", conds, env, stores, seen, calls)
+            continue
+        for nb, c2 in nexts:
+            if nb == head:
+                emit("back", c2, env, stores, seen, calls)
+            elif nb in seen:
+                emit("cycle", c2, env, stores, seen + [nb], calls)
+            else:
+                stack.append((nb, env, c2, stores, seen, calls))
+    return rows
+
+
+def loop_entry_value(body, head, l):
+    """value of local l when the loop at `head` is entered the first time"""
+    blocks = set().union(*[b for h, b in body.natural_loops() if h == head])
+    back = {(a, head) for a in body.pred[head] if a in blocks}
+    tm = Terms(body, edge_ok=lambda a, b: (a, b) not in back)
+    return tm.local(l, head, 0)
